@@ -1681,7 +1681,7 @@ Definition add_arg (c : ctx) (a : bytes) : M unit :=
   w <- getw ;;
   if ignored w (x_pats c) a then ret tt
   else match wt_stat w a with
-       | SNone | SNotDir => i <- of_opt (idx_delete (idx_of w) a) ;; emit (ESetIndex i)
+       | SNone | SNotDir => add_missing_body w a
        | SDir => iterM (add_dir_body c) (files_under w a)
        | SFile => add_file a
        end.
@@ -1689,12 +1689,13 @@ Definition add_arg (c : ctx) (a : bytes) : M unit :=
 Lemma cmd_add_uses_arg : forall c args,
   cmd_add c args =
   (guard (negb (is_nil args)) ;;;
-   (w <- getw ;; guard (forallb (fun a => exists_on_disk w a || tracked w a) args)) ;;;
+   (w <- getw ;;
+    guard (forallb (fun a => exists_on_disk w a || tracked w a || is_dir (idx_of w) a) args)) ;;;
    iterM (add_arg c) args ;;; ret []).
 Proof. reflexivity. Qed.
 
 Lemma cmd_add_one_arg : forall c w a tr,
-  exists_on_disk w a || tracked w a = true ->
+  exists_on_disk w a || tracked w a || is_dir (idx_of w) a = true ->
   runs (add_arg c a) w (Ok tt) tr -> runs (cmd_add c [a]) w (Ok []) tr.
 Proof.
   intros c w a tr Hv Hb. rewrite cmd_add_uses_arg.
@@ -1703,9 +1704,10 @@ Proof.
   cbn [iterM]. rstep. rewrite <- (app_nil_r tr). apply runs_seq; [exact Hb|]. rstep. rstep.
 Qed.
 
-(* validation: every argument exists on disk or is tracked, else nothing happens *)
+(* validation: every argument exists on disk, is tracked, or is a directory holding
+   tracked paths; else nothing happens *)
 Theorem cmd_add_refuses : forall c w args,
-  forallb (fun a => exists_on_disk w a || tracked w a) args = false ->
+  forallb (fun a => exists_on_disk w a || tracked w a || is_dir (idx_of w) a) args = false ->
   runs (cmd_add c args) w Err [] /\ run_m (cmd_add c args) w = (Err, w, []).
 Proof.
   intros c w args Hv.
@@ -1730,7 +1732,7 @@ Qed.
 
 (* an ignored argument: nothing at all *)
 Theorem cmd_add_ignored_spec : forall c w a,
-  exists_on_disk w a || tracked w a = true -> ignored w (x_pats c) a = true ->
+  exists_on_disk w a || tracked w a || is_dir (idx_of w) a = true -> ignored w (x_pats c) a = true ->
   runs (cmd_add c [a]) w (Ok []) [].
 Proof.
   intros c w a Hv Hig. apply cmd_add_one_arg; [exact Hv|]. unfold add_arg. rstep. rewrite Hig. rstep.
@@ -1754,10 +1756,12 @@ Theorem cmd_add_missing_spec : forall c w a, Canonical (idx_of w) ->
 Proof.
   intros c w a Hc Hs Hst Hig. destruct (stg_delete_some (idx_of w) a Hc Hst) as [i Hd].
   destruct (stg_delete (idx_of w) a i Hc Hd) as (Hci & Hsp & Hso).
+  assert (Ht : tracked w a = true).
+  { rewrite stg_tracked. destruct (staged w a); [reflexivity | contradiction Hst; reflexivity]. }
   exists i. split; [exact Hd|]. split.
   - apply cmd_add_one_arg.
-    { rewrite stg_tracked. destruct (staged w a); [apply orb_true_r | contradiction Hst; reflexivity]. }
-    unfold add_arg. rstep. rewrite Hig, Hs. ropt i Hd. rstep.
+    { rewrite Ht. rewrite orb_true_r. reflexivity. }
+    unfold add_arg. rstep. rewrite Hig, Hs. unfold add_missing_body. rewrite Ht. ropt i Hd. rstep.
   - constructor.
     + exact Hci.
     + exact Hsp.
@@ -1765,6 +1769,88 @@ Proof.
     + split; reflexivity.
     + repeat split.
     + split; reflexivity.
+Qed.
+
+(* (b') one argument that is a directory holding tracked paths and no longer on disk (or
+   whose name is now taken by something that is not a directory): every tracked path
+   beneath it leaves the staging area, one index write each; nothing else moves *)
+Record add_missing_dir_post (w : world) (sel : bytes -> Prop) (w' : world) : Prop := {
+  amd_canon : Canonical (idx_of w');
+  amd_gone : forall q, sel q -> staged w' q = None;
+  amd_others : forall q, ~ sel q -> staged w' q = staged w q;
+  amd_wt : same_wt w w';
+  amd_meta : same_meta w w';
+  amd_objs : same_objs w w'
+}.
+
+Lemma add_unstage_one_runs : forall w q i, idx_delete (idx_of w) q = Some i ->
+  runs (add_unstage_one q) w (Ok tt) [ESetIndex i].
+Proof. intros w q i Hd. unfold add_unstage_one. rstep. ropt i Hd. rstep. Qed.
+
+(* unstaging a duplicate-free list of tracked paths *)
+Lemma add_unstage_list_spec : forall l w, Canonical (idx_of w) -> NoDup l ->
+  (forall q, In q l -> staged w q <> None) ->
+  exists tr, runs (iterM add_unstage_one l) w (Ok tt) tr /\
+             Forall (fun e => is_idx e = true) tr /\ length tr = length l /\
+             add_missing_dir_post w (fun q => In q l) (apply_effects tr w).
+Proof.
+  induction l as [|x l IH]; intros w Hc Hnd Hl.
+  - exists []. split; [apply runs_ret|]. split; [constructor|]. split; [reflexivity|].
+    constructor; try (intros; contradiction); auto.
+    + apply same_wt_refl.
+    + apply same_meta_refl.
+    + apply same_objs_refl.
+  - inversion Hnd as [|x' l' Hx Hnd']; subst.
+    assert (Hstx : stg (idx_of w) x <> None) by (rewrite <- staged_stg; apply Hl; left; reflexivity).
+    destruct (stg_delete_some (idx_of w) x Hc Hstx) as [i Hd].
+    destruct (stg_delete (idx_of w) x i Hc Hd) as (Hci & Hsx & Hso).
+    set (w1 := apply_effect (ESetIndex i) w).
+    assert (Hso1 : forall q, q <> x -> staged w1 q = staged w q).
+    { intros q Hq. rewrite !staged_stg. apply Hso. exact Hq. }
+    destruct (IH w1 Hci Hnd') as (tr & Hr & Hg & Hlen & Hp).
+    { intros q Hq. rewrite Hso1; [apply Hl; right; exact Hq | intros ->; contradiction]. }
+    destruct Hp as [Pc Pg Po Pw Pm Pob].
+    exists ([ESetIndex i] ++ tr). split; [|split; [|split]].
+    + cbn [iterM]. apply runs_seq; [apply add_unstage_one_runs; exact Hd | exact Hr].
+    + constructor; [reflexivity | exact Hg].
+    + cbn [app length]. rewrite Hlen. reflexivity.
+    + cbn [app]. rewrite apply_effects_cons. fold w1. constructor.
+      * exact Pc.
+      * intros q [<-|Hq]; [|apply Pg; exact Hq]. rewrite (Po x Hx). exact Hsx.
+      * intros q Hq. assert (Hne : q <> x) by (intros ->; apply Hq; left; reflexivity).
+        rewrite Po; [apply Hso1; exact Hne | intro H; apply Hq; right; exact H].
+      * apply (same_wt_trans _ w1); [split; reflexivity | exact Pw].
+      * apply (same_meta_trans _ w1); [repeat split | exact Pm].
+      * apply (same_objs_trans _ w1); [split; reflexivity | exact Pob].
+Qed.
+
+Theorem cmd_add_missing_dir_spec : forall c w a, Canonical (idx_of w) ->
+  (wt_stat w a = SNone \/ wt_stat w a = SNotDir) ->
+  tracked w a = false -> is_dir (idx_of w) a = true -> ignored w (x_pats c) a = false ->
+  exists tr, runs (cmd_add c [a]) w (Ok []) tr /\
+             Forall (fun e => is_idx e = true) tr /\
+             length tr = length (entries_by_dir (idx_of w) a) /\
+             add_missing_dir_post w (fun q => under_dir a q = true) (apply_effects tr w).
+Proof.
+  intros c w a Hc Hs Ht Hdir Hig.
+  set (l := map e_path (entries_by_dir (idx_of w) a)).
+  assert (Hl : forall q, In q l <-> staged w q <> None /\ under_dir a q = true).
+  { intro q. apply (dir_targets_iff (idx_of w) a q Hc). }
+  destruct (add_unstage_list_spec l w Hc (dir_targets_nodup (idx_of w) a Hc)) as (tr & Hr & Hg & Hlen & Hp).
+  { intros q Hq. apply Hl in Hq. exact (proj1 Hq). }
+  exists tr. split; [|split; [exact Hg|split]].
+  - apply cmd_add_one_arg; [rewrite Hdir; apply orb_true_r|].
+    unfold add_arg. rstep. rewrite Hig.
+    assert (Hm : runs (add_missing_body w a) w (Ok tt) tr).
+    { unfold add_missing_body. rewrite Ht, Hdir. exact Hr. }
+    destruct Hs as [Hs|Hs]; rewrite Hs; exact Hm.
+  - rewrite Hlen. unfold l. apply map_length.
+  - destruct Hp as [Pc Pg Po Pw Pm Pob]. constructor; try assumption.
+    + intros q Hu. destruct (staged w q) as [id|] eqn:Hsq.
+      * apply Pg. apply Hl. split; [rewrite Hsq; discriminate | exact Hu].
+      * rewrite Po; [exact Hsq|]. intro Hin. apply Hl in Hin. destruct Hin as [Hn _].
+        apply Hn. exact Hsq.
+    + intros q Hu. apply Po. intro Hin. apply Hl in Hin. apply Hu. exact (proj2 Hin).
 Qed.
 
 (* (c) a directory argument *)
@@ -1871,12 +1957,16 @@ Proof.
 Qed.
 
 (* ---------- (d) the whole command, any argument list, any outcome ---------- *)
-(* the paths [add args] may (re)stage or unstage, fixed by the initial world *)
+(* the paths [add args] may (re)stage or unstage, fixed by the initial world: an argument,
+   an existing file below an argument, or a staged path below an argument that is not on
+   disk (the tracked directory that is gone) *)
 Definition add_sel (w0 : world) (args : list bytes) (q : bytes) : Prop :=
-  exists a, In a args /\ (q = a \/ (under_dir a q = true /\ file w0 q <> None)).
+  exists a, In a args /\
+    (q = a \/ (under_dir a q = true /\ file w0 q <> None)
+     \/ (under_dir a q = true /\ exists_on_disk w0 a = false /\ staged w0 q <> None)).
 
 Definition add_inv (w0 : world) (args : list bytes) (w : world) : Prop :=
-  Canonical (idx_of w) /\ w_files w = w_files w0 /\
+  Canonical (idx_of w) /\ w_files w = w_files w0 /\ w_dirs w = w_dirs w0 /\
   forall q, staged w q <> staged w0 q -> add_sel w0 args q.
 
 Lemma add_inv_put : forall w0 args w i p, add_inv w0 args w -> add_inv w0 args (apply_effect (EPutObj i p) w).
@@ -1886,7 +1976,8 @@ Lemma add_inv_setidx : forall w0 args w p es', add_inv w0 args w -> add_sel w0 a
   Canonical es' -> (forall q, q <> p -> stg es' q = stg (idx_of w) q) ->
   add_inv w0 args (apply_effect (ESetIndex es') w).
 Proof.
-  intros w0 args w p es' (Hc & Hf & Hsel) Hp Hc' Ho. split; [exact Hc'|]. split; [exact Hf|].
+  intros w0 args w p es' (Hc & Hf & Hdd & Hsel) Hp Hc' Ho. split; [exact Hc'|]. split; [exact Hf|].
+  split; [exact Hdd|].
   intros q Hq. destruct (bytes_eq_dec q p) as [->|Hne]; [exact Hp|].
   apply Hsel. rewrite staged_stg. rewrite <- (Ho q Hne). exact Hq.
 Qed.
@@ -1927,6 +2018,40 @@ Proof.
     end.
 Qed.
 
+Lemma ex_opt_bytes_dec : forall a b : option bytes, {a = b} + {a <> b}.
+Proof. intros a b. decide equality. apply bytes_eq_dec. Qed.
+
+(* a staged path below an argument that is not on disk may be unstaged *)
+Lemma add_sel_under_missing : forall w0 args w1 x q, add_inv w0 args w1 -> In x args ->
+  exists_on_disk w1 x = false ->
+  In q (map e_path (entries_by_dir (idx_of w1) x)) -> add_sel w0 args q.
+Proof.
+  intros w0 args w1 x q (Hc & Hf & Hdd & Hsel) Hx Hdisk Hq.
+  apply (dir_targets_iff (idx_of w1) x q Hc) in Hq. destruct Hq as [Hst Hu].
+  rewrite <- staged_stg in Hst.
+  destruct (ex_opt_bytes_dec (staged w1 q) (staged w0 q)) as [E|E]; [|apply Hsel; exact E].
+  exists x. split; [exact Hx|]. right. right. split; [exact Hu|]. split.
+  - unfold exists_on_disk in *. rewrite <- (wt_stat_ext w0 w1 x Hf Hdd). exact Hdisk.
+  - rewrite <- E. exact Hst.
+Qed.
+
+(* the argument that is not on disk *)
+Lemma add_missing_emits : forall w0 args x w1, In x args -> exists_on_disk w1 x = false ->
+  hoare (add_inv w0 args) add_G (eq w1) (add_missing_body w1 x) (fun _ _ => True).
+Proof.
+  intros w0 args x w1 Hx Hdisk. apply at_Inv. intro Hi1. unfold add_missing_body. hsteps; try exact Logic.I.
+  - (* a tracked path that is gone *)
+    split; [exact Logic.I|]. split; [|exact Logic.I].
+    eapply add_inv_delete; [eassumption | | eassumption].
+    exists x. split; [exact Hx | left; reflexivity].
+  - (* a tracked directory that is gone: every tracked path beneath it *)
+    apply at_iterM with (J := fun _ => True); [auto| |auto].
+    intros q w2 Hq Hi2 _. unfold add_unstage_one. hsteps; try exact Logic.I.
+    split; [exact Logic.I|]. split; [|exact Logic.I].
+    eapply add_inv_delete; [eassumption | | eassumption].
+    apply (add_sel_under_missing w0 args w1 x q Hi1 Hx Hdisk Hq).
+Qed.
+
 Theorem cmd_add_emits : forall w0 c args, emits (add_inv w0 args) add_G (cmd_add c args).
 Proof.
   intros w0 c args. rewrite cmd_add_uses_arg. hsteps.
@@ -1940,24 +2065,23 @@ Proof.
       apply at_iterM with (J := fun _ => True); [auto| |auto].
       intros f w'' Hf Hi'' _. unfold add_dir_body. hsteps; try exact Logic.I.
       apply at_call with (P := fun _ => True) (R := fun _ _ => True); [|auto|auto].
-      apply add_file_emits. exists x. split; [exact Hx|]. right.
+      apply add_file_emits. exists x. split; [exact Hx|]. right. left.
       destruct (files_under_in w' x f Hf) as [Hu [data Hd]]. split; [exact Hu|].
       destruct Hi as (_ & Hfw & _). unfold file in *. rewrite <- Hfw, Hd. discriminate.
-    + (* a tracked path that is gone *)
-      split; [exact Logic.I|]. split; [|exact Logic.I].
-      eapply add_inv_delete; [eassumption | | eassumption].
-      exists x. split; [exact Hx | left; reflexivity].
-    + split; [exact Logic.I|]. split; [|exact Logic.I].
-      eapply add_inv_delete; [eassumption | | eassumption].
-      exists x. split; [exact Hx | left; reflexivity].
+    + (* nothing on disk under that name *)
+      apply add_missing_emits; [exact Hx|].
+      unfold exists_on_disk. match goal with H : wt_stat _ _ = SNone |- _ => rewrite H end. reflexivity.
+    + (* the name is below a file *)
+      apply add_missing_emits; [exact Hx|].
+      unfold exists_on_disk. match goal with H : wt_stat _ _ = SNotDir |- _ => rewrite H end. reflexivity.
   - intros w' _ _. hsteps. exact Logic.I.
 Qed.
 
 (* C04 for [add], any arguments, any outcome (failures part-way included):
    only object writes and index writes are performed, so the work tree, refs,
    HEAD, journals and configs never change; no readable object is lost; and a
-   path whose staged value changed is an argument or an existing file below
-   an argument *)
+   path whose staged value changed is an argument, an existing file below
+   an argument, or a staged path below an argument that is not on disk *)
 Theorem cmd_add_frame : forall c w args r w' tr, Canonical (idx_of w) ->
   run_m (cmd_add c args) w = (r, w', tr) ->
   w' = apply_effects tr w /\ Forall add_eff tr /\
@@ -1968,7 +2092,7 @@ Theorem cmd_add_frame : forall c w args r w' tr, Canonical (idx_of w) ->
 Proof.
   intros c w args r w' tr Hc Hrun.
   assert (Hi : add_inv w args w).
-  { split; [exact Hc|]. split; [reflexivity|]. intros q Hq. contradiction Hq. reflexivity. }
+  { split; [exact Hc|]. split; [reflexivity|]. split; [reflexivity|]. intros q Hq. contradiction Hq. reflexivity. }
   destruct (emits_sound (add_inv w args) add_G _ _ w r w' tr (cmd_add_emits w c args) Hi Hrun)
     as (Hi' & Hw & Hs & _).
   assert (Hall : Forall add_eff tr).
@@ -1977,7 +2101,7 @@ Proof.
   destruct (add_eff_trace_frame tr w Hall) as [H1 H2]. rewrite <- Hw in H1, H2.
   split; [exact H1|]. split; [exact H2|].
   split; [intro Hcoll; rewrite Hw in *; apply objs_kept_trace; exact Hcoll|].
-  destruct Hi' as (Hc' & _ & Hsel). split; [exact Hc' | exact Hsel].
+  destruct Hi' as (Hc' & _ & _ & Hsel). split; [exact Hc' | exact Hsel].
 Qed.
 
 (* ================================================================== *)
@@ -2331,6 +2455,33 @@ Proof.
   - exists tr. split; assumption.
 Qed.
 
+(* the hypotheses of [cmd_add_missing_dir_spec] are satisfiable: the user removes the
+   directory d from disk; [add d] then unstages d/x and d/y, in two index writes, and
+   nothing else moves *)
+Definition ex_w5 : world := Eval vm_compute in run [AEdit (URmTree (str "d"%string))] ex_w1.
+
+Example ex_add_missing_dir_spec_applies : forall c, x_pats c = [ign_builtin] ->
+  exists tr, runs (cmd_add c [str "d"%string]) ex_w5 (Ok []) tr /\
+    Forall (fun e => is_idx e = true) tr /\ length tr = 2 /\
+    add_missing_dir_post ex_w5 (fun q => under_dir (str "d"%string) q = true) (apply_effects tr ex_w5).
+Proof.
+  intros c Hpats.
+  destruct (cmd_add_missing_dir_spec c ex_w5 (str "d"%string) ex_w1_canonical) as (tr & Hr & Hg & Hlen & Hp).
+  - left. vm_compute. reflexivity.
+  - vm_compute. reflexivity.
+  - vm_compute. reflexivity.
+  - rewrite Hpats. vm_compute. reflexivity.
+  - exists tr. split; [exact Hr|]. split; [exact Hg|]. split; [|exact Hp].
+    rewrite Hlen. vm_compute. reflexivity.
+Qed.
+
+Example ex_add_missing_dir :
+  let '(w', o, tr) := step (ACmd ex_env (CAdd [str "d"%string])) ex_w5 in
+  o = OOk [] /\ length tr = 2 /\
+  map e_path (idx_of w') = [str "ad/x"%string; str "d-old"%string] /\
+  w_files w' = w_files ex_w5 /\ w_objs w' = w_objs ex_w5.
+Proof. vm_compute. repeat split. Qed.
+
 (* re-adding unchanged files changes nothing *)
 Example ex_readd_noop : step (ACmd ex_env (CAdd [str "."%string])) ex_w1 = (ex_w1, OOk [], []).
 Proof. vm_compute. reflexivity. Qed.
@@ -2371,6 +2522,8 @@ Print Assumptions add_file_spec.
 Print Assumptions add_file_unchanged.
 Print Assumptions cmd_add_file_spec.
 Print Assumptions cmd_add_missing_spec.
+Print Assumptions cmd_add_missing_dir_spec.
+Print Assumptions cmd_add_refuses.
 Print Assumptions cmd_add_dir_spec.
 Print Assumptions cmd_add_frame.
 Print Assumptions cmd_rm_refuses.
@@ -2393,3 +2546,4 @@ Print Assumptions cmd_reset_mixed_spec.
 Print Assumptions cmd_reset_hard_spec.
 Print Assumptions cmd_reset_hard_frame.
 Print Assumptions ex_rm_dir_spec_applies.
+Print Assumptions ex_add_missing_dir_spec_applies.
